@@ -54,6 +54,9 @@ z k (m i j)*k              -- the k index triples with zero_mask[m,i,j] = True, 
 ```
 e.g. `crossing 2 2 900 0 0 -1 10 950 950 10 1 0 0 0 -1 990 0 0 990 0 1`
   → `some 1 0 -1 -1 h 0 0 z 2 0 0 1 0 1 0`
+and (trajectory 0 in hold-off and probed, 1 idle, 2 detected: `need_idx = [0,2]`, `detect_mol_idx = [2]`)
+`crossing 3 2 900 0 2 0 10 950 950 10 1 0 0 0 -1 990 0 0 990 0 1 1 0 -1 10 950 950 10 1 0`
+  → `some -1 -1 -1 -1 1 0 h 0 0 0 z 2 2 0 1 2 1 0`
 -/
 namespace Crossing
 
